@@ -33,3 +33,10 @@ package api
 //@   pure
 //@   note assumed: bind-request mutators only compute annotations
 //@ end
+
+// ---- added by helper "solver" (stable families, ENGINE_NEWS batch 7/8) ------------------------------------
+// The snapshot's job and node tables are filled by the cache snapshot only; the scheduling actions read them.
+//@ stable ClusterInfo.PodGroupInfos
+//@ stable ClusterInfo.Nodes
+//@ stable maptype map[common_info.PodGroupID]*podgroup_info.PodGroupInfo
+//@ stable maptype map[string]*node_info.NodeInfo
